@@ -109,4 +109,13 @@ def respond (cache : List SChange) (theirHeads : List Nat) (max : Nat) : List Ba
   let rm := removedSet cache theirHeads
   batches (fun x => rm.contains x) max (cache.length + 1) cache
 
+/-! ### receiver side glue: stored records ↔ changes -/
+
+/-- the stored record of a change of the given size -/
+def toS (p : Change × Nat) : SChange := ⟨p.1.id, p.1.prevs, p.2⟩
+
+/-- the change a stored record stands for (what `Unmarshall` gives back), looked up by id -/
+def toC (cs : List (Change × Nat)) (s : SChange) : Change :=
+  ((cs.find? (fun p => p.1.id == s.id)).map (·.1)).getD ⟨s.id, s.prevs, 0, false⟩
+
 end AnySync.Tree
